@@ -36,8 +36,27 @@ static cstr_t G_s0, G_s1, G_r0, G_r1; static int G_next_str;   /* separate objec
 
 void error(const char *fmt, ...) { if (G_errors < 10) G_errors++; V_ASSERT(1, "error reached"); V_STOP(); }
 void fatal(char *fmt, ...) { V_STOP(); }
-int debug_message_with_src(const char *a, const char *b, const char *c, int d, const char *e, ...) { return 0; }
-void free_string_svalue(svalue_t *v) { if (G_frees < 10) G_frees++; }
+/* use-after-release witness: the text an svalue gave up with free_string_svalue() must not be handed to anything afterwards
+   (the driver's trace / debug output prints its %s arguments) */
+static const char *G_released_text;
+void free_string_svalue(svalue_t *v) { if (G_frees < 10) G_frees++; if (v->subtype & STRING_COUNTED) G_released_text = v->u.string; }
+int debug_message_with_src(const char *a, const char *b, const char *c, int d, const char *e, ...) {
+  /* e is the printf format: every %s argument is a text that will be read */
+  va_list ap; va_start(ap, e);
+  for (int i = 0; i < 40 && e[i]; i++) {
+    if (e[i] != '%') continue;
+    i++;
+    if (e[i] == 's') { const char *t = va_arg(ap, const char *); V_ASSERT(G_released_text == 0 || t != G_released_text, "a text printed by the debug/trace output was not already released with free_string_svalue"); }
+    else if (e[i] == 'd' || e[i] == 'u' || e[i] == 'x' || e[i] == 'c') (void)va_arg(ap, int);
+    else if (e[i] == 'l' || e[i] == 'z') { (void)va_arg(ap, long); while (e[i + 1] == 'l' || e[i + 1] == 'd' || e[i + 1] == 'u') i++; }
+    else if (e[i] == 'f' || e[i] == 'g') (void)va_arg(ap, double);
+    else if (e[i] == 'p') (void)va_arg(ap, void *);
+    else if (e[i] == '%') continue;
+    else break;
+  }
+  va_end(ap);
+  return 0;
+}
 /* trusted copy semantics (reference counting is C06's subject) */
 void assign_svalue_no_free(svalue_t *to, svalue_t *from) {
   int live = __CPROVER_r_ok(from, sizeof(*from)) && __CPROVER_w_ok(to, sizeof(*to));
